@@ -932,6 +932,18 @@ func plRun(job plJob) (res plResult) {
 
 // plRunFree: the real workers running freely and in parallel (no hooks, GOMAXPROCS 8), fed like the receive loop feeds
 // them; everything they publish is collected.  The judge compares the payloads with the stand-alone ones.
+// plRecvInto is the receive loop's part: the next datagram is read into a buffer taken from the pool (and what an earlier,
+// longer datagram left behind it stays there).  A race report whose write is HERE means that somebody still reads a buffer
+// that was returned to the pool.
+func plRecvInto(b, body []byte, poison []int) []byte {
+	copy(b, body)
+	b = b[:cap(b)]
+	for i := len(body); i < len(b) && len(poison) > 0; i++ {
+		b[i] = byte(poison[(i-len(body))%len(poison)])
+	}
+	return b
+}
+
 func plRunFree(job plJob) (res plResult) {
 	res.ID = job.ID
 	runtime.GOMAXPROCS(8)
@@ -962,11 +974,7 @@ func plRunFree(job plJob) (res plResult) {
 		if len(body) > len(b) { // the socket read stores at most len(b) octets
 			body = body[:len(b)]
 		}
-		copy(b, body)
-		b = b[:cap(b)]
-		for i := len(body); i < len(b) && len(job.Poison) > 0; i++ {
-			b[i] = byte(job.Poison[(i-len(body))%len(job.Poison)])
-		}
+		b = plRecvInto(b, body, job.Poison)
 		ad.send(&net.UDPAddr{IP: plBytes(d.Exp), Port: 4000}, b[:len(body)])
 	}
 	idle := func(limit time.Duration) {
